@@ -124,6 +124,9 @@ def gen_eval() -> str:
     lines.append("def safeCastTargets : List (String × String) := " + llist(sorted((k, getattr(v, "__name__", repr(v))) for k, v in pa._SAFE_CASTS.items()), lambda kv: "(" + lstr(kv[0]) + ", " + lstr(kv[1]) + ")"))
     lines.append("def safeNames : List String := " + llist(sorted(pa._SAFE_NAME_REFERENCES)))
     lines += ["", "end Reduino.Gen.Eval", ""]
+    return "\n".join(lines)
+
+
 def gen_types() -> str:
     """`_BUILTIN_CALL_RETURN_TYPES` of the parser: the type `_infer_expr_type` gives a call of a builtin (C02)"""
     import importlib
